@@ -119,10 +119,23 @@ def LP.WF (p : Page) : LP → Prop
 instance (p : Page) (l : LP) : Decidable (l.WF p) := by
   cases l <;> unfold LP.WF <;> infer_instance
 
+/-- the slot a NORMAL pointer names -/
+def LP.slot? : LP → Option Nat
+  | .normal k => some k
+  | .other .. => none
+
+/-- the slots named by the NORMAL pointers, in pointer order -/
+def Page.normalSlots (p : Page) : List Nat := p.lps.filterMap LP.slot?
+
+/-- PostgreSQL's page invariants as far as a scanner depends on them.  The last conjunct: no two NORMAL pointers name the
+same slot — PageAddItem gives every item its own storage, so tuple storage never overlaps (amcheck's verify_heapam
+reports overlap as corruption); the storage of DISTINCT slots is disjoint by construction (slots are laid out
+consecutively from pd_upper). -/
 def Page.WF (p : Page) : Prop :=
   p.hdr0.length = 12 ∧ p.special < 65536 ∧ 1 ≤ p.version ∧ p.version ≤ 10 ∧ p.prune < 2 ^ 32 ∧
   (∀ l ∈ p.lps, l.WF p) ∧ (∀ s ∈ p.slots, s.2.WF) ∧
-  p.upper + (p.slots.map slotLen).sum + p.tail.length = 8192
+  p.upper + (p.slots.map slotLen).sum + p.tail.length = 8192 ∧
+  p.normalSlots.Nodup
 
 instance (p : Page) : Decidable p.WF := by unfold Page.WF; infer_instance
 
